@@ -1,0 +1,31 @@
+//! Reading integer struct fields from terms.
+
+use erltf::OwnedTerm;
+
+/// The integer a field holds. Integers outside the 32-bit range come back from the wire as
+/// big integers, so both representations are accepted.
+pub(crate) fn integer_field(term: &OwnedTerm) -> Option<i64> {
+    match term {
+        OwnedTerm::Integer(i) => Some(*i),
+        OwnedTerm::BigInt(big) => {
+            let significant = big.digits.iter().rposition(|&d| d != 0).map_or(0, |p| p + 1);
+            if significant > 8 {
+                return None;
+            }
+            let mut bytes = [0u8; 8];
+            bytes[..significant].copy_from_slice(&big.digits[..significant]);
+            let magnitude = u64::from_le_bytes(bytes);
+            if big.sign.is_negative() {
+                0i64.checked_sub_unsigned(magnitude)
+            } else {
+                i64::try_from(magnitude).ok()
+            }
+        }
+        _ => None,
+    }
+}
+
+/// An integer field that has to fit a narrower type; `None` when it does not.
+pub(crate) fn narrow_field<T: TryFrom<i64>>(term: &OwnedTerm) -> Option<T> {
+    T::try_from(integer_field(term)?).ok()
+}
